@@ -54,6 +54,9 @@ func (s *Solver) start() {
 		panic(err)
 	}
 	s.cmd, s.in, s.out = cmd, in, bufio.NewReaderSize(out, 1<<16)
+	if p := os.Getenv("VERIF_SOLVER_DUMP"); p != "" && s.dump == nil {
+		s.dump, _ = os.OpenFile(p, os.O_CREATE|os.O_WRONLY|os.O_APPEND, 0o644)
+	}
 	s.declared, s.ufDecl = map[*Term]bool{}, map[string]bool{}
 	s.defined = map[*Term]string{}
 	s.stack = nil
